@@ -78,3 +78,46 @@ func (n *VerifNode) SendViaRaw(localIndex uint32, relayRemoteIndex uint32, paylo
 	n.F.SendVia(hi, &Relay{RemoteIndex: relayRemoteIndex}, payload, make([]byte, 12, 12), make([]byte, mtu), false, 0)
 	return true
 }
+
+// StartRelays is relayManager.StartRelays for an outbound handshake attempt towards vpnIp whose remote
+// list names the given relays (the call handleOutbound makes), without registering a pending handshake.
+func (n *VerifNode) StartRelays(vpnIp netip.Addr, relays []netip.Addr, stage0 []byte) {
+	// a private remote list, so that nothing is left behind in the lighthouse cache
+	remotes := NewRemoteList([]netip.Addr{vpnIp}, nil)
+	remotes.Lock()
+	remotes.unlockedSetRelay(vpnIp, relays)
+	remotes.Unlock()
+	hi := &HostInfo{
+		vpnAddrs: []netip.Addr{vpnIp},
+		remotes:  remotes,
+		relayState: RelayState{
+			relayForByAddr: map[netip.Addr]*Relay{},
+			relayForByIdx:  map[uint32]*Relay{},
+		},
+	}
+	hi.remotes.CopyAddrs(n.F.hostMap.GetPreferredRanges())
+	n.F.relayManager.StartRelays(n.F, vpnIp, &HandshakeHostInfo{hostinfo: hi}, stage0)
+}
+
+// MigrateRelayUsed is connectionManager.migrateRelayUsed(old, new) for the hostinfos registered under the
+// two local indexes (what doTrafficCheck does on the migrateRelays decision).
+func (n *VerifNode) MigrateRelayUsed(oldIndex, newIndex uint32) bool {
+	o, p := n.F.hostMap.QueryIndex(oldIndex), n.F.hostMap.QueryIndex(newIndex)
+	if o == nil || p == nil {
+		return false
+	}
+	n.F.connectionManager.migrateRelayUsed(o, p)
+	return true
+}
+
+// HostIndexes lists the local indexes of every hostinfo held for a vpn address, primary first.
+func (n *VerifNode) HostIndexes(vpnAddr netip.Addr) []uint32 {
+	hm := n.F.hostMap
+	hm.RLock()
+	defer hm.RUnlock()
+	var out []uint32
+	for _, h := range hm.unlockedGetHostList(vpnAddr) {
+		out = append(out, h.localIndexId)
+	}
+	return out
+}
